@@ -30,11 +30,27 @@ pub fn isolated<F: FnOnce(&mut dyn FnMut(&str))>(timeout_ms: u64, f: F) -> Strin
         let mut buf = Vec::new();
         let start = std::time::Instant::now();
         let mut hang = false;
+        // A case hangs when the child has *used* its budget of CPU time (a spin), or when it has made no
+        // progress for a generous multiple of the budget on the wall clock (a block): a child that is merely
+        // starved by other load on the machine is not a hang.
+        let wall_limit = timeout_ms * 4 + 2000;
+        let tick_ms = 1000 / (libc::sysconf(libc::_SC_CLK_TCK).max(1) as u64);
+        let cpu_ms = |pid: i32| -> u64 {
+            std::fs::read_to_string(format!("/proc/{pid}/stat")).ok().and_then(|st| {
+                let rest = st.rsplit_once(") ")?.1.to_string();
+                let f: Vec<&str> = rest.split_whitespace().collect();
+                Some((f.get(11)?.parse::<u64>().ok()? + f.get(12)?.parse::<u64>().ok()?) * tick_ms)
+            }).unwrap_or(0)
+        };
         loop {
-            let left = timeout_ms as i64 - start.elapsed().as_millis() as i64;
-            if left <= 0 { hang = true; break; }
+            let wall = start.elapsed().as_millis() as u64;
+            if wall >= wall_limit || (wall >= timeout_ms && cpu_ms(pid) >= timeout_ms) {
+                if std::env::var_os("OCH_HANG_DEBUG").is_some() { eprintln!("HANG-1 wall={wall} cpu={} limit={timeout_ms}", cpu_ms(pid)); }
+                hang = true; break;
+            }
+            let left = (wall_limit - wall) as i64;
             let mut pfd = libc::pollfd { fd: fds[0], events: libc::POLLIN, revents: 0 };
-            let pr = libc::poll(&mut pfd, 1, left.min(1000) as i32);
+            let pr = libc::poll(&mut pfd, 1, left.min(100) as i32);
             if pr > 0 {
                 let mut tmp = [0u8; 65536];
                 match r.read(&mut tmp) {
@@ -55,7 +71,8 @@ pub fn isolated<F: FnOnce(&mut dyn FnMut(&str))>(timeout_ms: u64, f: F) -> Strin
             loop {
                 let w = libc::waitpid(pid, &mut status, libc::WNOHANG);
                 if w == pid { break; }
-                if t1.elapsed().as_millis() as u64 > timeout_ms {
+                if t1.elapsed().as_millis() as u64 > wall_limit {
+                    if std::env::var_os("OCH_HANG_DEBUG").is_some() { eprintln!("HANG-2 waited={} cpu={}", t1.elapsed().as_millis(), cpu_ms(pid)); }
                     libc::kill(pid, libc::SIGKILL);
                     libc::waitpid(pid, &mut status, 0);
                     tail = Some("HANG".into());
